@@ -18,6 +18,7 @@ EXTENDS PackOps, TLC
 
 (* ---------------------------- the machine ------------------------------ *)
 CONSTANTS Items,      \* the items a write may choose from
+          FirstItems, \* ... the first write of a session from this set (fillers that set the room left for the next item)
           Caps,       \* buffer capacities
           MaxW,       \* writes per session
           ReadOps,    \* read operations for the free part of the read phase
@@ -66,7 +67,7 @@ DoRead(op) == /\ ph = "r" /\ Len(rlog) < Budget
               /\ ph' = IF op.o = "finish" THEN "done" ELSE "r"
               /\ UNCHANGED <<cap, buf, wlog, demo, pad, data>>
 
-Next == (\E it \in Items : Write(it)) \/ StartRead \/ (\E op \in NextOps : DoRead(op))
+Next == (\E it \in (IF wlog = <<>> THEN FirstItems ELSE Items) : Write(it)) \/ StartRead \/ (\E op \in NextOps : DoRead(op))
 Spec == Init /\ [][Next]_vars
 
 (* ---------------------------- properties ------------------------------- *)
